@@ -330,6 +330,8 @@ class NodeBase(object):
         """
         self._frozen = False
         self._stale = True
+        # changes to children were not passed on while frozen: parents need to be updated as well
+        self.notify_parents()
 
     def mark_for_update(self):
         """
